@@ -78,3 +78,137 @@ Definition NodeInterfacesContiguous (s : state) : Prop :=
   nd_count ND = Z.of_nat (length (nd_ifaces ND)) ∧
   ∀ k, (k < length (nd_ifaces ND))%nat →
     ∃ i Ii, nd_ifaces ND !! k = Some i ∧ ifaces s !! i = Some Ii ∧ i_node Ii = nd ∧ i_number Ii = Z.of_nat k.
+
+(* ---- C06: documented preconditions and causes, written from the doc comments of the Go methods
+   in terms of the *contents* (children listed by the containers and the fields of the children),
+   never in terms of the uniqueness indexes -------------------------------------------------------- *)
+Section decl.
+  Context (s : state).
+  Local Open Scope Z_scope.
+
+  (* some bus of network [n] is named [nm] *)
+  Definition net_has_bus_named (n : handle) (nm : name) : Prop :=
+    ∃ N b B, nets s !! n = Some N ∧ b ∈ n_buses N ∧ buses s !! b = Some B ∧ b_name B = nm.
+  (* some node attached to bus [b] is named [nm] / has id [id] *)
+  Definition bus_has_node_named (b : handle) (nm : name) : Prop :=
+    ∃ B nd i ND, buses s !! b = Some B ∧ b_nodeInts B !! nd = Some i ∧ nodes s !! nd = Some ND ∧ nd_name ND = nm.
+  Definition bus_has_node_id (b : handle) (id : Z) : Prop :=
+    ∃ B nd i ND, buses s !! b = Some B ∧ b_nodeInts B !! nd = Some i ∧ nodes s !! nd = Some ND ∧ nd_id ND = id.
+  (* some message sent by interface [i] … *)
+  Definition iface_sends (i : handle) (P : msg_rec → Prop) : Prop :=
+    ∃ Ii m M, ifaces s !! i = Some Ii ∧ m ∈ i_sent Ii ∧ msgs s !! m = Some M ∧ P M.
+  (* some message sent on bus [b] … *)
+  Definition bus_carries (b : handle) (P : msg_rec → Prop) : Prop :=
+    ∃ B nd i, buses s !! b = Some B ∧ b_nodeInts B !! nd = Some i ∧ iface_sends i P.
+  Definition has_static (c : Z) (M : msg_rec) : Prop := m_hasStatic M = true ∧ m_static M = c.
+  Definition has_plain_id (id : Z) (M : msg_rec) : Prop := m_hasStatic M = false ∧ m_id M = id.
+  (* some value of enum [e] … *)
+  Definition enum_has_value (e : handle) (P : eval_rec → Prop) : Prop :=
+    ∃ E v V, enums s !! e = Some E ∧ v ∈ e_values E ∧ evals s !! v = Some V ∧ P V.
+
+  (* the explicit handle arguments denote entities of the right kind *)
+  Definition wf (o : op) : Prop :=
+    match o with
+    | NewNetwork | NewBus _ | NewNode _ _ _ | NewMessage _ _ _ | NewEnum | NewEnumValue _ _ | NewOther => True
+    | NetAddBus n ob => is_Some (nets s !! n) ∧ ∀ b, ob = Some b → is_Some (buses s !! b)
+    | NetRemoveBus n _ | NetRemoveAllBuses n => is_Some (nets s !! n)
+    | BusUpdateName b _ | BusRemoveNodeInterface b _ | BusRemoveAllNodeInterfaces b => is_Some (buses s !! b)
+    | BusAddNodeInterface b oi => is_Some (buses s !! b) ∧ ∀ i, oi = Some i → is_Some (ifaces s !! i)
+    | NodeUpdateName nd _ | NodeUpdateID nd _ | NodeAddInterface nd | NodeRemoveInterface nd _ => is_Some (nodes s !! nd)
+    | IfAddSent i om | IfAddReceived i om => is_Some (ifaces s !! i) ∧ ∀ m, om = Some m → is_Some (msgs s !! m)
+    | IfRemoveSent i _ | IfRemoveAllSent i | IfRemoveReceived i _ | IfRemoveAllReceived i => is_Some (ifaces s !! i)
+    | MsgUpdateName m _ | MsgUpdateID m _ | MsgSetStatic m _ | MsgRemoveReceiver m _ => is_Some (msgs s !! m)
+    | MsgAddReceiver m oi => is_Some (msgs s !! m) ∧ ∀ i, oi = Some i → is_Some (ifaces s !! i)
+    | EnumAddValue e ov _ => is_Some (enums s !! e) ∧ ∀ v, ov = Some v → is_Some (evals s !! v)
+    | EnumRemoveValue e _ | EnumRemoveAllValues e => is_Some (enums s !! e)
+    | EvalUpdateName v _ | EvalUpdateIndex v _ _ => is_Some (evals s !! v)
+    end.
+
+  (* [viol o (c, w)]: a documented precondition of [o] is violated and [c] (with innermost typed
+     wrapper [w]) is the documented cause *)
+  Definition viol (o : op) (cw : cause * wrap) : Prop :=
+    match o with
+    | NetAddBus n ob =>
+        (ob = None ∧ cw = (Nil, WArgument)) ∨
+        (∃ b B, ob = Some b ∧ buses s !! b = Some B ∧ net_has_bus_named n (b_name B) ∧ cw = (Duplicated, WName))
+    | NetRemoveBus n key => (∀ N, nets s !! n = Some N → key ∉ n_buses N) ∧ cw = (NotFound, WRemoveEntity)
+    | BusUpdateName b new =>
+        ∃ B n, buses s !! b = Some B ∧ b_name B ≠ new ∧ b_parent B = Some n ∧ net_has_bus_named n new ∧
+               cw = (Duplicated, WUpdateName)
+    | BusAddNodeInterface b oi =>
+        (oi = None ∧ cw = (Nil, WArgument)) ∨
+        (∃ i Ii ND, oi = Some i ∧ ifaces s !! i = Some Ii ∧ nodes s !! i_node Ii = Some ND ∧
+           ((bus_has_node_named b (nd_name ND) ∧ cw = (Duplicated, WName)) ∨
+            (bus_has_node_id b (nd_id ND) ∧ cw = (Duplicated, WNodeID)) ∨
+            (iface_sends i (λ M, bus_max_size < m_size M) ∧ cw = (TooBig, WMessageSize)) ∨
+            (iface_sends i (λ M, m_hasStatic M = true ∧ bus_carries b (has_static (m_static M))) ∧
+             cw = (Duplicated, WCANID))))
+    | BusRemoveNodeInterface b key =>
+        (∀ B, buses s !! b = Some B → b_nodeInts B !! key = None) ∧ cw = (NotFound, WRemoveEntity)
+    | NodeUpdateName nd new =>
+        ∃ ND i Ii b, nodes s !! nd = Some ND ∧ nd_name ND ≠ new ∧ i ∈ nd_ifaces ND ∧ ifaces s !! i = Some Ii ∧
+                     i_parent Ii = Some b ∧ bus_has_node_named b new ∧ cw = (Duplicated, WName)
+    | NodeUpdateID nd new =>
+        ∃ ND i Ii b, nodes s !! nd = Some ND ∧ nd_id ND ≠ new ∧ i ∈ nd_ifaces ND ∧ ifaces s !! i = Some Ii ∧
+                     i_parent Ii = Some b ∧ bus_has_node_id b new ∧ cw = (Duplicated, WNodeID)
+    | NodeRemoveInterface nd k =>
+        (k < 0 ∧ cw = (Negative, WArgument)) ∨
+        (∃ ND, nodes s !! nd = Some ND ∧ Z.of_nat (length (nd_ifaces ND)) ≤ k ∧ cw = (OutOfBounds, WArgument))
+    | IfAddSent i om =>
+        (om = None ∧ cw = (Nil, WArgument)) ∨
+        (∃ m M Ii, om = Some m ∧ msgs s !! m = Some M ∧ ifaces s !! i = Some Ii ∧
+           ((iface_sends i (λ M', m_name M' = m_name M) ∧ cw = (Duplicated, WName)) ∨
+            (is_Some (i_parent Ii) ∧ bus_max_size < m_size M ∧ cw = (TooBig, WMessageSize)) ∨
+            (m_hasStatic M = true ∧ iface_sends i (has_static (m_static M)) ∧ cw = (Duplicated, WCANID)) ∨
+            (m_hasStatic M = true ∧ (∃ b, i_parent Ii = Some b ∧ bus_carries b (has_static (m_static M))) ∧
+             cw = (Duplicated, WCANID)) ∨
+            (m_hasStatic M = false ∧ iface_sends i (has_plain_id (m_id M)) ∧ cw = (Duplicated, WMessageID))))
+    | IfRemoveSent i key => (∀ Ii, ifaces s !! i = Some Ii → key ∉ i_sent Ii) ∧ cw = (NotFound, WRemoveEntity)
+    | IfAddReceived i om =>
+        (om = None ∧ cw = (Nil, WArgument)) ∨
+        (∃ m Ii, om = Some m ∧ ifaces s !! i = Some Ii ∧ m ∈ i_sent Ii ∧ cw = (ReceiverIsSender, WAddEntity))
+    | MsgAddReceiver m oi =>
+        (oi = None ∧ cw = (Nil, WArgument)) ∨
+        (∃ i Ii, oi = Some i ∧ ifaces s !! i = Some Ii ∧ m ∈ i_sent Ii ∧ cw = (ReceiverIsSender, WAddEntity))
+    | IfRemoveReceived i key => (∀ Ii, ifaces s !! i = Some Ii → key ∉ i_received Ii) ∧ cw = (NotFound, WRemoveEntity)
+    | MsgRemoveReceiver m key =>
+        (∀ M, msgs s !! m = Some M → m_receivers M !! key = None) ∧ cw = (NotFound, WRemoveEntity)
+    | MsgUpdateName m new =>
+        ∃ M i, msgs s !! m = Some M ∧ m_name M ≠ new ∧ m_sender M = Some i ∧
+               iface_sends i (λ M', m_name M' = new) ∧ cw = (Duplicated, WName)
+    | MsgUpdateID m new =>
+        ∃ M i, msgs s !! m = Some M ∧ ¬ (m_id M = new ∧ m_hasStatic M = false) ∧ m_sender M = Some i ∧
+               iface_sends i (has_plain_id new) ∧ cw = (Duplicated, WMessageID)
+    | MsgSetStatic m c =>
+        ∃ M i Ii, msgs s !! m = Some M ∧ m_sender M = Some i ∧ ifaces s !! i = Some Ii ∧
+          (iface_sends i (has_static c) ∨ ∃ b, i_parent Ii = Some b ∧ bus_carries b (has_static c)) ∧
+          cw = (Duplicated, WCANID)
+    | EnumAddValue e ov fits =>
+        (ov = None ∧ cw = (Nil, WArgument)) ∨
+        (∃ v V E, ov = Some v ∧ evals s !! v = Some V ∧ enums s !! e = Some E ∧
+           ((enum_has_value e (λ V', v_index V' = v_index V) ∧ cw = (Duplicated, WAddEntity)) ∨
+            (e_maxIndex E < v_index V ∧ fits = false ∧ cw = (Layout, WValueIndex)) ∨
+            (enum_has_value e (λ V', v_name V' = v_name V) ∧ cw = (Duplicated, WName))))
+    | EnumRemoveValue e key => (∀ E, enums s !! e = Some E → key ∉ e_values E) ∧ cw = (NotFound, WRemoveEntity)
+    | EvalUpdateName v new =>
+        ∃ V e, evals s !! v = Some V ∧ v_name V ≠ new ∧ v_parent V = Some e ∧
+               enum_has_value e (λ V', v_name V' = new) ∧ cw = (Duplicated, WName)
+    | EvalUpdateIndex v new fits =>
+        ∃ V e E, evals s !! v = Some V ∧ v_index V ≠ new ∧ v_parent V = Some e ∧ enums s !! e = Some E ∧
+          ((enum_has_value e (λ V', v_index V' = new) ∧ cw = (Duplicated, WUpdateIndex)) ∨
+           (e_maxIndex E < new ∧ fits = false ∧ cw = (Layout, WValueIndex)))
+    | _ => False
+    end.
+
+  (* the documented precondition: well-formed arguments and no violation *)
+  Definition pre (o : op) : Prop := wf o ∧ ∀ cw, ¬ viol o cw.
+  (* a documented cause of refusal *)
+  Definition doc_cause (o : op) (cw : cause * wrap) : Prop := viol o cw ∨ (¬ wf o ∧ cw = (BadHandle, WNone)).
+End decl.
+
+(* C06: the result of every call is determined by the documented precondition *)
+Definition StepSpec (s : state) (o : op) : Prop :=
+  match (step s o).2 with
+  | Ok => pre s o
+  | Err cs => cs ≠ [] ∧ ∀ cw, cw ∈ cs → doc_cause s o cw
+  end.
